@@ -4,6 +4,12 @@ part "iter"  : ImageIterator histories (next / seek / close / drop / image size 
                animated sources; every yielded frame is identified with the frame obtained
                by formatting that frame directly (image.seek(k); format(image, spec)) on a
                second instance of the same source; image.tell() and loop_no after every op.
+               Round 4: an "env" op changes the ENVIRONMENT (terminal size as seen by every
+               module of the library, global cell ratio, cell size) between two yields; the
+               reference table has one row per (size setting, environment) configuration
+               visited, obtained under that environment; and right after every yield the
+               same frame is formatted directly on the second instance (same size setting,
+               same specifier, the environment in force at that moment): "direct".
 part "fault" : a scenario (format / str / draw / animated draw / iteration / n_frames) run
                once without fault (counting the library's calls to PIL convert / resize /
                alpha_composite / save / tobytes) and then once per call index k with a
@@ -56,6 +62,22 @@ REAL = {m: getattr(Image.Image, m) for m in FAULT_METHODS}
 
 def fd_count():
     return len(os.listdir("/proc/self/fd"))
+
+
+import term_image as _ti
+
+DEFAULT_ENV = {"term": [80, 30], "ratio": 0.5}
+
+
+def set_env(env, case):
+    """The environment is `env` from now on, for every module of the library: terminal size,
+    global cell ratio (text-based styles), cell size (graphics-based styles)."""
+    ts = os.terminal_size(tuple(env.get("term") or (80, 30)))
+    for name, mod in list(sys.modules.items()):
+        if name.startswith("term_image") and hasattr(mod, "get_terminal_size"):
+            mod.get_terminal_size = lambda ts=ts: ts
+    tests.set_cell_size(tuple(env.get("cell") or case.get("cell", (10, 20))))
+    _ti.set_cell_ratio(float(env.get("ratio") or 0.5))
 
 
 def setup_style(style, term=None):
@@ -164,6 +186,7 @@ class OpenTracker:
 
     def __init__(self):
         self.opened, self.closed = [], set()
+        self.paused = False  # the oracle's own direct formatting is not the library under observation
 
     def __enter__(self):
         tr = self
@@ -171,7 +194,8 @@ class OpenTracker:
 
         def opener(*a, **kw):
             im = REAL_OPEN(*a, **kw)
-            tr.opened.append(im)
+            if not tr.paused:
+                tr.opened.append(im)
             return im
 
         def close(self_):
@@ -195,7 +219,16 @@ class OpenTracker:
 
 
 def run_iter(case, idx):
-    tests.set_cell_size(tuple(case.get("cell", (10, 20))))
+    try:
+        return run_iter_(case, idx)
+    finally:
+        set_env(DEFAULT_ENV, {})
+
+
+def run_iter_(case, idx):
+    envs = case.get("envs") or [{"term": [80, 30]}]
+    nenv = len(envs)
+    set_env(envs[0], case)
     cls = setup_style(case["style"], case.get("term"))
     path = source_path(case["src"], idx)
     sizes = case["sizes"]
@@ -204,17 +237,29 @@ def run_iter(case, idx):
     def fid(s):
         return ids.setdefault(s, len(ids))
 
-    res = {}
+    # the (size setting, environment) configurations the history visits
+    visited, cs, ce = {(0, 0)}, 0, 0
+    for op in case["ops"]:
+        if op[0] == "size":
+            cs = op[1]
+        elif op[0] == "env":
+            ce = op[1]
+        visited.add((cs, ce))
+
+    res = {"nenv": nenv}
     with FailFrame(cls, case.get("fail_frame")):
-        # reference: direct formatting of every frame at every size, on a second instance
+        # reference: direct formatting of every frame under every configuration visited, on a
+        # second instance
         ref, ref_keep = construct(cls, case["source"], path)
         N = ref.n_frames
         res["N"] = N
-        table, hashes = [], []
+        table = [[] for _ in range(len(sizes) * nenv)]
+        hashes = [0] * (len(sizes) * nenv)
         rspec = ref_spec(case["spec"])
-        for sz in sizes:
-            apply_size(ref, sz)
-            hashes.append(hash(ref.rendered_size))
+        for (i, j) in sorted(visited):
+            set_env(envs[j], case)
+            apply_size(ref, sizes[i])
+            hashes[i * nenv + j] = hash(ref.rendered_size)
             row = []
             for k in range(N):
                 ref.seek(k)
@@ -222,10 +267,12 @@ def run_iter(case, idx):
                     row.append(fid(format(ref, rspec)))
                 except Exception:
                     row.append(-1)
-            table.append(row)
+            table[i * nenv + j] = row
         res["table"], res["hashes"] = table, hashes
-        res["rsizes"] = []
-        ref.close()
+        set_env(envs[0], case)
+        apply_size(ref, sizes[0])
+        ref.seek(0)
+        gc.collect()
 
         fd0 = fd_count()
         image, keep = construct(cls, case["source"], path, sizes[0])
@@ -236,11 +283,11 @@ def run_iter(case, idx):
         tracker.__enter__()
         it = ImageIterator(image, case["repeat"], case["spec"], case["cached"])
         res["cache_on"] = bool(it._cached)
-        rows = []
+        rows, direct = [], []
         cur_size = 0
         last_ln = None
         for op in case["ops"]:
-            code, y = -1, -1
+            code, y, d = -1, -1, -1
             try:
                 if op[0] == "next":
                     if it is None:
@@ -268,10 +315,10 @@ def run_iter(case, idx):
                 elif op[0] == "size":
                     cur_size = op[1]
                     apply_size(image, sizes[cur_size])
-                    if isinstance(sizes[cur_size], list):
-                        size_setting = image.size
-                    else:
-                        size_setting = image.size
+                    size_setting = image.size
+                    code = 9
+                elif op[0] == "env":
+                    set_env(envs[op[1]], case)
                     code = 9
             except ValueError:
                 code = 5
@@ -286,10 +333,25 @@ def run_iter(case, idx):
                 last_ln = it.loop_no
             ln = last_ln  # after a drop: the last value seen (the object is gone)
             rows.append([code, y, image.tell(), -99 if ln is None else ln, tracker.unclosed()])
+            if code == 0:
+                # the oracle, at the time of the yield: the frame just yielded (image.tell()),
+                # formatted directly with the same specifier and size setting under the
+                # environment in force now
+                tracker.paused = True
+                try:
+                    apply_size(ref, sizes[cur_size])
+                    ref.seek(image.tell())
+                    d = fid(format(ref, rspec))
+                except Exception:  # noqa: BLE001
+                    d = -2
+                finally:
+                    tracker.paused = False
+            direct.append(d)
         tracker.__exit__()
         res["opened"] = len(tracker.opened)
         tracker.opened.clear()
         res["rows"] = rows
+        res["direct"] = direct
         res["size_kept"] = image.size == size_setting
         res["pil_tell"] = keep.tell() if keep is not None else -1
         alive = True
@@ -306,6 +368,9 @@ def run_iter(case, idx):
         keep = None
         gc.collect()
         res["fd_delta"] = fd_count() - fd0
+        ref.close()
+        if ref_keep is not None:
+            ref_keep.close()
     return res
 
 
